@@ -28,10 +28,9 @@ class DynamicOpticalSystem(object):
 
         end = False
         while not end:
-            t_next, _, callback = self.callbacks[0]
-            if t_next < t:
+            if self.callbacks and self.callbacks[0][0] < t:
+                t_next, _, callback = heapq.heappop(self.callbacks)
                 integration_time = t_next - self.t
-                heapq.heappop(self.callbacks)
             else:
                 integration_time = t - self.t
                 end = True
